@@ -339,11 +339,14 @@ theorem linked_iff {f : MatchFn} {L : List Link} {x y : Name}
   unfold linked EStar
   simp only [List.any_eq_true, Bool.or_eq_true, Bool.and_eq_true, beq_iff_eq, bne_iff_ne, ne_eq]
   constructor
-  · rintro ⟨⟨a, b⟩, hl, (⟨rfl, h⟩ | ⟨⟨rfl, hne⟩, hf⟩)⟩
+  · rintro ⟨⟨a, b⟩, hl, ((⟨rfl, h⟩ | ⟨⟨rfl, hne⟩, hf⟩) | ⟨h, hf⟩)⟩
     · exact ⟨a, hl, h.imp Eq.symm id⟩
     · exact absurd (hplain a _ hl y hf).symm hne
+    · have := hplain a b hl y hf
+      subst this
+      exact ⟨a, hl, h.imp Eq.symm id⟩
   · rintro ⟨a, hl, h⟩
-    exact ⟨(a, y), hl, Or.inl ⟨rfl, h.imp Eq.symm id⟩⟩
+    exact ⟨(a, y), hl, Or.inl (Or.inl ⟨rfl, h.imp Eq.symm id⟩)⟩
 
 theorem mtch_some {s : RM} {f : MatchFn} (h : s.matchFn = some f) : s.mtch = f := by
   funext a b; simp [RM.mtch, h]
@@ -931,13 +934,13 @@ theorem mem_effLinks {s : DM} (hk : (s.allLinks.map (·.1)).Nodup) {d : Name} {l
 /-- **Cache coherence.** Domain keys are unique, every per-domain store is a set, and every cached manager is
     a coherent `RoleManager` (graph invariant) over exactly the assignments that apply in its domain. The
     standing assumptions on the user supplied functions are carried along: the name matching function is
-    transitive and relates no other name to an assigned role; a domain matching function is reflexive. -/
+    transitive and relates no other name to an assigned role; NOTHING is assumed of the domain matching function
+    (F36 repaired: a domain's own cached manager is always among the affected ones). -/
 structure DInv (s : DM) : Prop where
   keys : (s.allLinks.map (·.1)).Nodup
   ckeys : (s.rmMap.map (·.1)).Nodup
   stores : ∀ d ls, (d, ls) ∈ s.allLinks → ls.Nodup
   trans : Trans s.matchFn
-  drefl : ∀ dm, s.dmatchFn = some dm → ∀ d, dm d d = true
   plain : ∀ d l, s.recorded d l → ∀ n, s.matchFn n l.2 = true → n = l.2
   cache : ∀ d rm, (d, rm) ∈ s.rmMap →
     rm.maxLevel = s.maxLevel ∧ rm.matchFn = some s.matchFn ∧ Inv rm ∧ ∀ l, l ∈ rm.allLinks ↔ s.eff d l
@@ -993,7 +996,7 @@ theorem recorded_congr {s s' : DM} (h1 : s'.allLinks = s.allLinks) : s'.recorded
 theorem put_inv {s : DM} (h : DInv s) (d : Name) (rm : RM)
     (hrm : rm.maxLevel = s.maxLevel ∧ rm.matchFn = some s.matchFn ∧ Inv rm ∧ ∀ l, l ∈ rm.allLinks ↔ s.eff d l) :
     DInv { s with rmMap := assocPut d rm s.rmMap } := by
-  refine ⟨h.keys, ?_, h.stores, h.trans, h.drefl, h.plain, ?_⟩
+  refine ⟨h.keys, ?_, h.stores, h.trans, h.plain, ?_⟩
   · show ((assocPut d rm s.rmMap).map (·.1)).Nodup
     rw [assocPut_keys]; exact h.ckeys
   · intro d' rm' hmem
@@ -1011,7 +1014,7 @@ theorem getRM_spec {s : DM} (h : DInv s) (d : Name) :
   | some rm => exact ⟨h, hl, rfl, rfl, rfl, rfl⟩
   | none =>
     have hnk := lookup_none_not_key hl
-    refine ⟨⟨h.keys, ?_, h.stores, h.trans, h.drefl, h.plain, ?_⟩, ?_, rfl, rfl, rfl, rfl⟩
+    refine ⟨⟨h.keys, ?_, h.stores, h.trans, h.plain, ?_⟩, ?_, rfl, rfl, rfl, rfl⟩
     · show ((s.rmMap ++ [(d, s.build d)]).map (·.1)).Nodup
       rw [List.map_append, List.nodup_append]
       refine ⟨h.ckeys, by simp, ?_⟩
@@ -1148,7 +1151,7 @@ theorem touch_inv {s : DM} (h : DInv s) (d : Name) : DInv (s.touch d) := by
       | none => rfl
       | some v => simp [hh] at hn
     simp only [hn, Bool.false_eq_true, ↓reduceIte] at hr he
-    refine ⟨?_, h.ckeys, ?_, h.trans, h.drefl, ?_, ?_⟩
+    refine ⟨?_, h.ckeys, ?_, h.trans, ?_, ?_⟩
     · show ((s.allLinks ++ [((d, []) : Name × List Link)]).map (·.1)).Nodup
       rw [List.map_append, List.nodup_append]
       refine ⟨h.keys, by simp, ?_⟩
@@ -1239,9 +1242,9 @@ theorem recorded_setStore_erase {s : DM} {d : Name} (hs : ∀ d ls, (d, ls) ∈ 
       exact ⟨fun h => hne ⟨hd, h⟩, hl⟩
     · exact hl
 
-/-- under a reflexive domain matching function "affected" (which cached managers `add_link`/`delete_link`
+/-- (F36 repaired; for ANY domain matching function) "affected" (which cached managers `add_link`/`delete_link`
     update) and "covers" (which stores a new manager is built from) are the same relation -/
-theorem affected_iff {s : DM} (hr : ∀ dm, s.dmatchFn = some dm → ∀ d, dm d d = true) (d0 d : Name) :
+theorem affected_iff {s : DM} (d0 d : Name) :
     s.affected d0 d = true ↔ s.covers d0 d := by
   unfold DM.affected DM.covers
   cases hdm : s.dmatchFn with
@@ -1249,11 +1252,14 @@ theorem affected_iff {s : DM} (hr : ∀ dm, s.dmatchFn = some dm → ∀ d, dm d
     simp only [beq_iff_eq, reduceCtorEq, false_and, exists_false, or_false]
     exact eq_comm
   | some dm =>
+    simp only [Bool.or_eq_true, beq_iff_eq]
     constructor
-    · intro h; exact Or.inr ⟨dm, rfl, h⟩
+    · rintro (h | h)
+      · exact Or.inl h.symm
+      · exact Or.inr ⟨dm, rfl, h⟩
     · rintro (rfl | ⟨dm', he, h⟩)
-      · exact hr dm hdm _
-      · simp only [Option.some.injEq] at he; subst he; exact h
+      · exact Or.inl rfl
+      · simp only [Option.some.injEq] at he; subst he; exact Or.inr h
 
 theorem map_keys {β} (l : List (Name × β)) (f : Name × β → Name × β) (hf : ∀ e, (f e).1 = e.1) :
     (l.map f).map (·.1) = l.map (·.1) := by
@@ -1294,7 +1300,7 @@ theorem dm_addLink_spec {s : DM} (h : DInv s) (a b d : Name) (hb : ∀ n, s.matc
   have hM : (s.addLink a b d).matchFn = s.matchFn := by rw [heq]; exact hm1
   have hD : (s.addLink a b d).dmatchFn = s.dmatchFn := by rw [heq]; exact hd1
   have hLv : (s.addLink a b d).maxLevel = s.maxLevel := by rw [heq]; exact hl1
-  refine ⟨⟨?_, ?_, ?_, by rw [hM]; exact h.trans, by rw [hD]; exact h.drefl, ?_, ?_⟩, ?_, hD, hM, hLv⟩
+  refine ⟨⟨?_, ?_, ?_, by rw [hM]; exact h.trans, ?_, ?_⟩, ?_, hD, hM, hLv⟩
   · rw [heq]; show ((setStore (s.touch d) d (insertE (a, b))).allLinks.map (·.1)).Nodup
     rw [setStore_keys]; exact h1.keys
   · rw [heq]
@@ -1327,7 +1333,7 @@ theorem dm_addLink_spec {s : DM} (h : DInv s) (a b d : Name) (hb : ∀ n, s.matc
       refine ⟨by rw [hLv]; simp [c1], by rw [hM]; simp [c2], addLink_inv (by rw [hm]; exact h.trans) c3 a b (by rw [hm]; exact hb), ?_⟩
       intro l
       rw [addLink_allLinks, mem_insertE, c4, heff]
-      have := (affected_iff h.drefl k d).mp hA
+      have := (affected_iff k d).mp hA
       constructor
       · rintro (rfl | h') ; exact Or.inr ⟨this, rfl⟩; exact Or.inl h'
       · rintro (h' | ⟨_, rfl⟩) ; exact Or.inr h'; exact Or.inl rfl
@@ -1336,7 +1342,7 @@ theorem dm_addLink_spec {s : DM} (h : DInv s) (a b d : Name) (hb : ∀ n, s.matc
       refine ⟨by rw [hLv]; exact c1, by rw [hM]; exact c2, c3, ?_⟩
       intro l
       rw [c4, heff]
-      have : ¬ s.covers k d := fun hc => hA ((affected_iff h.drefl k d).mpr hc)
+      have : ¬ s.covers k d := fun hc => hA ((affected_iff k d).mpr hc)
       constructor
       · exact Or.inl
       · rintro (h' | ⟨hc, _⟩) ; exact h'; exact absurd hc this
@@ -1371,9 +1377,8 @@ theorem dinv_with_caches {s s2 : DM} (h : DInv s) (m : List (Name × RM))
     (hcache : ∀ d0 rm, (d0, rm) ∈ m →
       rm.maxLevel = s.maxLevel ∧ rm.matchFn = some s.matchFn ∧ Inv rm ∧ ∀ l, l ∈ rm.allLinks ↔ s2.eff d0 l) :
     DInv { s2 with rmMap := m } := by
-  refine ⟨hk, hck, hst, ?_, ?_, ?_, ?_⟩
+  refine ⟨hk, hck, hst, ?_, ?_, ?_⟩
   · show Trans s2.matchFn; rw [hm]; exact h.trans
-  · show ∀ dm, s2.dmatchFn = some dm → _; rw [hd]; exact h.drefl
   · show ∀ d l, s2.recorded d l → ∀ n, s2.matchFn n l.2 = true → n = l.2; rw [hm]; exact hplain
   · intro d0 rm hmem
     show rm.maxLevel = s2.maxLevel ∧ rm.matchFn = some s2.matchFn ∧ Inv rm ∧ ∀ l, l ∈ rm.allLinks ↔ s2.eff d0 l
@@ -1445,9 +1450,9 @@ theorem dm_deleteLink_spec {s : DM} (h : DInv s) (a b d : Name) :
           obtain ⟨c1, c2, c3, c4⟩ := h.cache d0 rm hin
           have hnc : ¬ s.covers d0 d := by
             rintro (rfl | ⟨dm', he, hm⟩)
-            · rw [h.drefl dm hdm] at hnd; exact Bool.noConfusion hnd
+            · simp at hnd
             · rw [hdm] at he; simp only [Option.some.injEq] at he; subst he
-              rw [hm] at hnd; exact Bool.noConfusion hnd
+              rw [hm] at hnd; simp at hnd
           exact ⟨c1, c2, c3, fun l => by rw [c4]; exact (heff_other d0 hnc l).symm⟩
       | none =>
         have hnoerr : ∀ e ∈ s.rmMap, (fun d' => d' == d) e.1 = true → (e.2.deleteLink a b).2 = none := by
@@ -1502,7 +1507,7 @@ theorem dm_getUsers_inv {s : DM} (h : DInv s) (n d : Name) :
   exact this.2
 
 theorem dm_clear_inv {s : DM} (h : DInv s) : DInv s.clear := by
-  refine ⟨by simp [DM.clear], by simp [DM.clear], ?_, h.trans, h.drefl, ?_, ?_⟩
+  refine ⟨by simp [DM.clear], by simp [DM.clear], ?_, h.trans, ?_, ?_⟩
   · intro d ls hmem; simp [DM.clear] at hmem
   · rintro d l ⟨ls, hmem, _⟩; simp [DM.clear] at hmem
   · intro d rm hmem; simp [DM.clear] at hmem
@@ -1611,9 +1616,8 @@ theorem drun_inv {s : DM} (h : DInv s) (ops : List DOp) (hops : DPlainRoles s.ma
 
 def dinit (L : Nat) (mf : MatchFn) (dmf : Option MatchFn) : DM := { maxLevel := L, matchFn := mf, dmatchFn := dmf }
 
-theorem dinit_inv (L : Nat) (mf : MatchFn) (dmf : Option MatchFn) (ht : Trans mf)
-    (hr : ∀ dm, dmf = some dm → ∀ d, dm d d = true) : DInv (dinit L mf dmf) := by
-  refine ⟨by simp [dinit], by simp [dinit], ?_, ht, hr, ?_, ?_⟩
+theorem dinit_inv (L : Nat) (mf : MatchFn) (dmf : Option MatchFn) (ht : Trans mf) : DInv (dinit L mf dmf) := by
+  refine ⟨by simp [dinit], by simp [dinit], ?_, ht, ?_, ?_⟩
   · intro d ls hmem; simp [dinit] at hmem
   · rintro d l ⟨ls, hmem, _⟩; simp [dinit] at hmem
   · intro d rm hmem; simp [dinit] at hmem
@@ -1643,7 +1647,7 @@ theorem domain_scoped (L : Nat) (ops : List DOp) (u r d : Name) (s : DM)
     (∀ d' l, s.recorded d' l ↔ dforce (fun _ _ => False) ops d' l) ∧
     derrors (dinit L (fun a b => a == b) none) ops = [] := by
   have hplain : DPlainRoles (fun a b => a == b) ops := by intro a b d _ n hn; simpa using hn
-  obtain ⟨h1, h2, h3, h4, h5, h6⟩ := drun_inv (dinit_inv L _ none eq_trans (by simp)) ops hplain
+  obtain ⟨h1, h2, h3, h4, h5, h6⟩ := drun_inv (dinit_inv L _ none eq_trans) ops hplain
   rw [← hs] at h1 h2 h3 h4 h5
   have h2' : s.dmatchFn = none := h2
   have h3' : s.matchFn = fun a b => a == b := h3
